@@ -482,7 +482,7 @@ fn history<W: C05Word>(c: &mut Case, width: usize, init: usize, steps: usize, it
         2 => {
             m = gen_vals(c.rng(), len0, width);
             b = BitFieldVec::<W>::new(width, 0);
-            b.extend(m.iter().map(|&x| W::from128(x)));
+            b.extend(suxmon::gen::HintIter::new(m.iter().map(|&x| W::from128(x)), m.len(), (len0 % 6) as u8));
             trace.push(format!("BitFieldVec::<{}>::new({},0).extend({})", W::NAME, width, show_vals(&m)));
         }
         3 => {
@@ -589,7 +589,7 @@ fn history<W: C05Word>(c: &mut Case, width: usize, init: usize, steps: usize, it
                 let n = c.rng().random_range(0..=3 * per_word);
                 let vals = gen_vals(c.rng(), n, width);
                 trace.push(format!("extend{}", show_vals(&vals)));
-                b.extend(vals.iter().map(|&x| W::from128(x)));
+                b.extend(suxmon::gen::HintIter::new(vals.iter().map(|&x| W::from128(x)), vals.len(), (vals.len() % 6) as u8));
                 m.extend(vals.iter().copied());
                 grew += 1;
             }
